@@ -209,6 +209,45 @@ def run_spellings(run, binary, base, rng, n):
             shutil.rmtree(root, ignore_errors=True)
 
 
+def run_odd_times(run, binary, base, rng, n):
+    """Unusual modification times on either side (before 1970, the epoch itself, 1 ns steps, sub-second
+    differences, far future): a run that exits 0 must leave identical times and bytes (or have left an equal-time file
+    alone) - the tool may refuse a time it cannot represent, but must not exit 0 with something else there."""
+    Y = 365 * 86400 * 10**9
+    odd = [-5 * Y, -1, 0, 1, 999_999_999, 10**9, T0 - 1, T0 + 1, T0 + 999_999, T0 + 10**9 - 1, T0 - 10**9 + 1, T0 + 500_000_000,
+           (2**31) * 10**9 + 1, 230 * Y + 123_456_789]
+    for i in range(n):
+        root = tempfile.mkdtemp(prefix='odd_', dir=base)
+        try:
+            src = {'': {'k': 'dir'}}
+            dest = {'': {'k': 'dir'}}
+            for k in range(rng.randrange(1, 6)):
+                nm = 'f%d' % k
+                ts = rng.choice(odd)
+                src[nm] = {'k': 'file', 'data': b's' * rng.choice([0, 1, 7, 5000]), 'mtime_ns': ts}
+                r = rng.random()
+                if r < 0.7:
+                    td = rng.choice([ts, ts + 1, ts - 1, ts + 400_000_000, ts - 999_999_999, rng.choice(odd)])
+                    dest[nm] = {'k': 'file', 'data': b'd' * rng.choice([0, 3, 7, 9000]), 'mtime_ns': td}
+            e2e.build_tree(os.path.join(root, 'src'), src)
+            e2e.build_tree(os.path.join(root, 'dest'), dest)
+            srcsnap = e2e.snapshot(os.path.join(root, 'src'))
+            before = e2e.snapshot(os.path.join(root, 'dest'))
+            r = e2e.run_cli(binary, [os.path.join(root, 'src'), os.path.join(root, 'dest'), '--dest-file-newer', 'overwrite', '--dest-file-older', 'overwrite'], timeout=60)
+            after = e2e.snapshot(os.path.join(root, 'dest'))
+            run.count('oddtimes:exit:%s' % r['exit'])
+            run.case(('oddtimes', i), True, sample={'times': sorted(n_['mtime_ns'] for p_, n_ in src.items() if p_), 'exit': r['exit']} if i < 3 else None)
+            if e2e.snapshot(os.path.join(root, 'src')) != srcsnap:
+                run.fail('C01 (odd times): the source changed', {'src': {k: str(v) for k, v in src.items()}})
+            elif r['exit'] == 0:
+                bad = mirror_oracle(srcsnap, before, after, [])
+                if bad:
+                    run.fail('C01 (odd times): exit 0 and ' + bad, {'family': 'oddtimes', 'src': {k: v.get('mtime_ns') for k, v in src.items()},
+                                                                    'dest': {k: v.get('mtime_ns') for k, v in dest.items()}, 'text': (r['stdout'] + r['stderr'])[-600:]})
+        finally:
+            shutil.rmtree(root, ignore_errors=True)
+
+
 def check(run):
     run.trusted = list(vlib.COMMON_TRUSTED) + [
         'modelled, not verified: POSIX syscall semantics of the doer (validated against the host kernel by every differential run); OS path resolution of the ancestors of the two roots; Windows doer branches',
@@ -250,6 +289,7 @@ def check(run):
                 run.broke('correspondence', 'e2e-remote', json.dumps({'scenario': sc.to_json(), 'mismatch': o.mismatch})[:2500])
         run_table(run, binary, base)
         run_spellings(run, binary, base, rng, 30 if quick else 2000)
+        run_odd_times(run, binary, base, rng, 40 if quick else 3000)
         # spec files with several syncs over shared roots (A -> B, then B -> C, ...) against Model/SpecRun.v
         import spec_e2e
         spec_e2e.family(run, binary, jbin, base, 40 if quick else 2500, rng, 'C01')
